@@ -490,7 +490,7 @@ def diff_case(part, out: dict, case, flags, world0, model, p1, err, m2) -> None:
     if "err" in out and "ser_ok" not in out:
         part.disagree("driver error: " + str(out["err"])[:200], case, out, None)
         return
-    lenient = bool(flags.get("shape_only"))
+    lenient = False
     if p1 is None:
         if out.get("ser_ok"):
             r = sc.root_cause(err)
